@@ -636,6 +636,29 @@ theorem lsAt_none (load : Oid → Option Listing) (hlo : ListingsOK load) (idx :
       exact hn (d, e) he (List.isPrefixOf_iff_prefix.mpr hkd)
     · cases h
 
+/-- **C17 (views under a prefix).** A filtered view iterated under a prefix yields exactly the keys under the prefix
+    that the filter accepts and at which the index means something - also when the prefix lies strictly inside a directory
+    held as one unloaded entry (the case the unrepaired view answered with `KeyError`, F23) -/
+theorem viewIter_exact (load : Oid → Option Listing) (hlo : ListingsOK load) (idx : LIndex) (hw : W1 idx)
+    (hwf : AList.WF idx) (f : Key → Bool) (pfx k : Key) (v : Bool × Option Oid) :
+    (∃ e, (k, e) ∈ (viewIter load idx f pfx).2 ∧ proj e = v) ↔
+      (pfx <+: k ∧ f k = true ∧ denote load idx k = some v) := by
+  unfold viewIter
+  simp only [List.mem_filter]
+  constructor
+  · rintro ⟨e, ⟨hm, hf⟩, hp⟩
+    obtain ⟨h1, h2⟩ := (iterItems_exact load hlo idx hw hwf pfx k v).mp ⟨e, hm, hp⟩
+    exact ⟨h1, hf, h2⟩
+  · rintro ⟨h1, hf, h2⟩
+    obtain ⟨e, hm, hp⟩ := (iterItems_exact load hlo idx hw hwf pfx k v).mpr ⟨h1, h2⟩
+    exact ⟨e, ⟨hm, hf⟩, hp⟩
+
+/-- ... and leaves the meaning of the index as it was -/
+theorem viewIter_preserves (load : Oid → Option Listing) (hlo : ListingsOK load) (idx : LIndex) (hw : W1 idx)
+    (f : Key → Bool) (pfx : Key) :
+    W1 (viewIter load idx f pfx).1 ∧ ∀ k, denote load (viewIter load idx f pfx).1 k = denote load idx k :=
+  iterItems_preserves load hlo idx hw pfx
+
 /-! non-vacuity: an index with an unloaded directory object `d` listing `a` and `s/b` -/
 def exLoad : Oid → Option Listing := fun o => if o = "t.dir" then some [([['a']], "1"), ([['s'], ['b']], "2")] else none
 def exIdx : LIndex := [([['d']], { isdir := true, hash := some "t.dir", loaded := false }), ([['f']], { isdir := false, hash := some "9", loaded := true })]
@@ -680,5 +703,8 @@ example : W1 exIdx := by
   · split at hd
     · cases hd; simp at hc
     · cases hd
+
+example : (viewIter exLoad exIdx (fun k => k != [['d'], ['a']]) [['d'], ['s']]).2.map (fun p => (p.1, proj p.2)) =
+    [([['d'], ['s'], ['b']], (false, some "2")), ([['d'], ['s']], (true, none))] := by decide
 
 end DvcData.IndexLazy
